@@ -315,8 +315,14 @@ def c06 (ms : M) (e : Event) : List String :=
     let v := viewOf cfg m
     let k := kindOf m
     let mySeq := (fget m.f 34).getD "-"
-    -- callbacks about THIS message (stash drains deliver other numbers)
-    let reached := e.items.any fun i => match i with
+    -- callbacks about THIS message: its own callback precedes everything the message itself causes (its Reject, its advance
+    -- of the expected number); callbacks after the first advance of the event belong to messages drained from the stash
+    -- (which may carry the very number of a message that has just been rejected and consumed)
+    let own := e.items.takeWhile fun i => match i with
+      | .store ["incT"] => false
+      | .store ("setT" :: _) => false
+      | _ => true
+    let reached := own.any fun i => match i with
       | .fromApp s _ => s == mySeq && !isAdminKind k      -- (FromApp is never about an administrative message: a stash drain)
       | .fromAdmin kk s => kk != "A" && s == mySeq && kk == k
       | .onLogon => k == "A"
@@ -367,11 +373,14 @@ def c06 (ms : M) (e : Event) : List String :=
         (if kinds == ["3"] && rejTag "34" then [] else ["C06.reaction_wrong{defect=field34}"])
       else []
     -- shape of Rejects that answer this message
+    -- (a replayed Reject — 43=Y — answers an older message; while a message with the same number waits in the stash a Reject
+    --  quoting that number may answer the stashed one, drained within this event: not judged)
     let shape : List String := ws.flatMap fun (kk, _, f) =>
-      if !(kk == "3" || kk == "j") then [] else
+      if !(kk == "3" || kk == "j") || fget f 43 == some "Y" then [] else
       match v.seq with
       | none => []
       | some n =>
+        if prev.stash.contains n then [] else
         if fget f 45 != some (toString n) then
           (if (fget f 45).isNone then ["C06.reject_without_refseq"] else [])      -- a Reject for a drained message quotes that one
         else
